@@ -183,3 +183,45 @@ package dragonboat
 //@ loop 1 invariant forall k uint64 :: k in p.pending ==> len(p.pending[k].CompletedC) == old(len(p.pending[k].CompletedC)) + ite(visited(k), 1, 0)
 //@ func (q *entryQueue) close [C12]
 //@ trusted stops the proposal queue
+
+// ---------------------------------------------------------------- single-slot request tables (C12)
+// config change and snapshot requests: at most one is pending; a request is notified exactly
+// when it leaves the slot, and a request still in the slot has not been notified
+//@ func (p *pendingConfigChange) getTick [C12]
+//@ trusted reads the logical clock
+//@ func (p *pendingSnapshot) getTick [C12]
+//@ trusted reads the logical clock
+
+//@ func (p *pendingConfigChange) apply [C12]
+//@ modifies held(p.mu), p.pending, chan(old(p.pending).CompletedC), old(p.pending).readyToRelease.val
+//@ ensures p.pending != nil ==> p.pending == old(p.pending) && len(p.pending.CompletedC) == old(len(p.pending.CompletedC))
+//@ ensures old(p.pending) != nil && p.pending == nil ==> len(old(p.pending).CompletedC) == old(len(p.pending.CompletedC)) + 1
+
+//@ func (p *pendingConfigChange) gc [C12]
+//@ modifies held(p.mu), p.pending, chan(old(p.pending).CompletedC), old(p.pending).readyToRelease.val, p.lastGcTime
+//@ ensures p.pending != nil ==> p.pending == old(p.pending) && len(p.pending.CompletedC) == old(len(p.pending.CompletedC))
+//@ ensures old(p.pending) != nil && p.pending == nil ==> len(old(p.pending).CompletedC) == old(len(p.pending.CompletedC)) + 1
+
+//@ func (p *pendingConfigChange) close [C12]
+//@ modifies held(p.mu), p.pending, chan(old(p.pending).CompletedC), old(p.pending).readyToRelease.val, p.confChangeC
+//@ ensures p.pending != nil ==> p.pending == old(p.pending) && len(p.pending.CompletedC) == old(len(p.pending.CompletedC))
+//@ ensures old(p.pending) != nil && p.pending == nil ==> len(old(p.pending).CompletedC) == old(len(p.pending.CompletedC)) + 1
+
+//@ func (p *pendingSnapshot) apply [C12]
+//@ modifies held(p.mu), p.pending, chan(old(p.pending).CompletedC), old(p.pending).readyToRelease.val
+//@ ensures p.pending != nil ==> p.pending == old(p.pending) && len(p.pending.CompletedC) == old(len(p.pending.CompletedC))
+//@ ensures old(p.pending) != nil && p.pending == nil ==> len(old(p.pending).CompletedC) == old(len(p.pending.CompletedC)) + 1
+
+//@ func (p *pendingSnapshot) gc [C12]
+//@ modifies held(p.mu), p.pending, chan(old(p.pending).CompletedC), old(p.pending).readyToRelease.val, p.lastGcTime
+//@ ensures p.pending != nil ==> p.pending == old(p.pending) && len(p.pending.CompletedC) == old(len(p.pending.CompletedC))
+//@ ensures old(p.pending) != nil && p.pending == nil ==> len(old(p.pending).CompletedC) == old(len(p.pending.CompletedC)) + 1
+
+//@ func (p *pendingSnapshot) close [C12]
+//@ modifies held(p.mu), p.pending, chan(old(p.pending).CompletedC), old(p.pending).readyToRelease.val, p.snapshotC
+//@ ensures p.pending != nil ==> p.pending == old(p.pending) && len(p.pending.CompletedC) == old(len(p.pending.CompletedC))
+//@ ensures old(p.pending) != nil && p.pending == nil ==> len(old(p.pending).CompletedC) == old(len(p.pending.CompletedC)) + 1
+//@ func (p *pendingSnapshot) notify [C12]
+//@ requires p.pending != nil
+//@ modifies chan(p.pending.CompletedC), p.pending.readyToRelease.val
+//@ ensures old(len(p.pending.CompletedC)) < cap(p.pending.CompletedC) && len(p.pending.CompletedC) == old(len(p.pending.CompletedC)) + 1
